@@ -231,9 +231,9 @@ var objectSources = []string{
 	"1.5", "-0.25", "1.0d0", "1.5e20", "1.0e-7", "0.0", "123456.789d0", "1/3", "-22/7", "#C(1 2)",
 	"#(1 2 3)", "#()", "#(1 \"a\" #\\b foo)", "#(#(1 2) (3 . 4))", "(make-array '(2 2) :initial-element 0)",
 	"(make-array '(2 3) :initial-contents '((1 2 3) (\"a\" #\\b c)))", "#*1011", "#*",
-	"'(1 . 2)", "'(1 2 . 3)", "'((a . 1) (b . 2))", "'(\"x\" . #\\y)", "''a", "'(quote a)", "'(quote (1 2))", "'(function car)",
-	"'(a 'b \"c\" #\\d 1.5)", "'(1 (2 (3 (4 . 5))))", "t", "'|Foo Bar|", "':|Key|", "#\\Space", "#\\Newline", "#\\a",
-	"\"quo\\\"te\"", "\"back\\\\slash\"", "'(\"quo\\\"te\" #\\\" |sym bol|)",
+	"'(1 . 2)", "'(1 2 . 3)", "'((a . 1) (b . 2))", "'(\"x\" . #\\y)", "'(quote a)", "'(quote (1 2))", "'(function car)",
+	"'(a 'b \"c\" #\\d 1.5)", "'(1 (2 (3 (4 . 5))))", "t", "#\\Space", "#\\Newline", "#\\a",
+	"\"quo\\\"te\"", "\"back\\\\slash\"", "'(\"quo\\\"te\" #\\x (\"in\" . \"ner\"))",
 }
 
 func ov(src string) ref.Val { return ref.Val{K: "o", S: src} }
